@@ -710,9 +710,9 @@ Proof.
       match goal with Hh : head_mode (prog gt) = MFe |- _ => rewrite Hpr in Hh; try discriminate Hh end;
       right; right; right; eauto 10. }
   - (* tick *)
-    destruct Hcase as (s' & F & ->). eapply Tok_base_step; eauto.
+    destruct Hcase as (s' & F & ->). eapply (Tok_base_step g t ETick s' gt th); eauto.
   - (* cbtick *)
-    destruct Hcase as (s' & F & ->). eapply Tok_base_step; eauto.
+    destruct Hcase as (s' & F & ->). eapply (Tok_base_step g t (ECbTick i) s' gt th); eauto.
   - (* ret *)
     destruct Hcase as (Hp & s' & F & ->).
     pose proof (step_srel _ _ _ _ _ Hth (t1_pc _ T) F) as R.
